@@ -93,7 +93,8 @@ def _work(args):
                 if case is None:
                     continue
                 case['_id'] = {'prop': prop.ID, 'family': fam, 'i': i,
-                               'seed': base_seed,
+                               'seed': base_seed, 'idx': idx, 'lo': lo,
+                               'stride': stride, 'tier': tier,
                                'run_seed': S.run_seed(base_seed,
                                                       prop.ID + '/' + fam, i)}
                 res = prop.execute(case)
@@ -252,10 +253,22 @@ def key_matches(key, known_keys):
 
 # ---------------------------------------------------------------------------
 
+def _run_prelude(prop, doc):
+    """A violation that only shows after other connections were made in the
+    same process (state leaking between WebSocket objects) carries the cases
+    that have to run first."""
+    for c in doc.get('prelude') or []:
+        try:
+            prop.execute(copy.deepcopy(c))
+        except BaseException:
+            pass
+
+
 def replay(prop, path):
     with open(path) as f:
         doc = json.load(f)
     case = doc['case']
+    _run_prelude(prop, doc)
     res = prop.execute(case)
     want = doc.get('key')
     print('replay %s: %d violation(s)' % (path, len(res.violations)))
@@ -292,9 +305,47 @@ def _fresh_replay_reproduces(prop, path, key):
     return p.returncode == 3, p.stdout.decode('utf-8', 'replace')[-2000:]
 
 
+def _history_replay(prop, path, case, key, msg, seed):
+    """The violation did not reproduce from its own case in a fresh
+    interpreter: it may depend on state left behind by the cases the same
+    worker executed before it.  Re-create growing suffixes of that history
+    and look for the shortest one that reproduces (each attempt in a fresh
+    interpreter)."""
+    cid = case.get('_id') or {}
+    if 'idx' not in cid:
+        return False
+    plan = prop.plan(cid['tier'])
+    before = list(range(cid['lo'], cid['idx'], cid['stride']))
+    for k in (1, 2, 4, 8, 16, 32, 64, 128, 256):
+        idxs = before[-k:]
+        prelude = []
+        for idx in idxs:
+            fam, i = _index_to_family(plan, idx)
+            rng = S.rng_for(seed, prop.ID + '/' + fam, i)
+            try:
+                c = prop.make_case(fam, i, rng, cid['tier'])
+            except BaseException:
+                c = None
+            if c is not None:
+                prelude.append(c)
+        with open(path, 'w') as f:
+            json.dump({'property': prop.ID, 'key': key, 'message': msg,
+                       'seed': seed, 'case': case, 'prelude': prelude,
+                       'note': 'state leaks between connections of one '
+                               'process: the prelude cases must run first'},
+                      f, indent=1, sort_keys=True)
+        ok, _ = _fresh_replay_reproduces(prop, path, key)
+        if ok:
+            return True
+        if k >= len(before):
+            break
+    return False
+
+
 def expect_key(prop, path, key):
     with open(path) as f:
         doc = json.load(f)
+    _run_prelude(prop, doc)
     res = prop.execute(doc['case'])
     return 3 if any(k == key for k, _ in res.violations) else 0
 
@@ -404,6 +455,8 @@ def run_check(prop, argv=None):
                        'seed': args.seed, 'case': small}, f, indent=1,
                       sort_keys=True)
         ok, log = _fresh_replay_reproduces(prop, path, key)
+        if not ok:
+            ok = _history_replay(prop, path, case, key, msg, args.seed)
         if not ok:
             harness_error = ('replay of %s did not reproduce in a fresh '
                              'interpreter: %s' % (path, log))
